@@ -266,8 +266,25 @@ def run_case(ctx, g, rng):
         probe.note_key(f"graph:{direction}:{'in' if inside else 'after'}:{'conf' if configured else 'foreign'}:{'+'.join(sorted(cls))}:p{len(conf)}", nontrivial)
         S.counters["wl:graph-queries"] += 1
     # (b) web legs
-    fl = get_flask_mapping_app(conv).test_client() if preds is None else None
-    fa = TestClient(get_fastapi_mapping_app(conv)) if preds is None else None
+    fl = fa = None
+    if preds is None:
+        entry = rng.choice(["app", "app", "mounted"])
+        S.counters[f"wl:entry-point:{entry}"] += 1
+        if entry == "app":
+            fl = get_flask_mapping_app(conv).test_client()
+            fa = TestClient(get_fastapi_mapping_app(conv))
+        else:
+            # the blueprint / router mounted on an app of the user's own, as their documentation describes
+            import fastapi
+            import flask
+            from curies.mapping_service import get_fastapi_router, get_flask_mapping_blueprint
+
+            own = flask.Flask("users_own_app")
+            own.register_blueprint(get_flask_mapping_blueprint(conv))
+            fl = own.test_client()
+            own2 = fastapi.FastAPI()
+            own2.include_router(get_fastapi_router(conv))
+            fa = TestClient(own2)
     if fl is not None:
         conf = [OWL_SAMEAS]
         for wi in range(4):
